@@ -614,12 +614,16 @@ def _run_tree(res, shape):
       res['nontrivial'].append(core.h(key))
     # ---- apply: variable present / absent x filter objects x capture ----------
     vars_full = m.init(rngs, _tree_arg('flat' if shape == 'frozen' else shape), x)
-    for present in (True, False):
+    for present in (True, False, 'empty'):   # 'empty': the collection exists but holds nothing
       for fname, mk in TREE_FILTERS:
         for capture in (False, True):
           f = mk()
           fb = fsnap(f)
-          vin = jax.tree.map(lambda l: l, vars_full if present else {'params': vars_full['params']})
+          vin = jax.tree.map(lambda l: l, vars_full if present is True
+                             else {'params': vars_full['params']})
+          if present == 'empty':
+            vin['cache'] = {}
+            vin['intermediates'] = {}
           vb = snap(vin)
           arg = _tree_arg(shape)
           ab = snap(arg)
